@@ -732,3 +732,31 @@ func edgeReturn(e sx.Edge, idx int) (ret *ssa.Return, val ssa.Value, ok bool) {
 	}
 	return ret, v, true
 }
+
+// boolEdges: the CFG edges taken when the boolean v is `want` — the matching edge of every `if v` and, through
+// negations, of every `if !v`.
+func boolEdges(v ssa.Value, want bool) map[sx.Edge]bool {
+	out := map[sx.Edge]bool{}
+	var walk func(v ssa.Value, want bool, depth int)
+	walk = func(v ssa.Value, want bool, depth int) {
+		if v.Referrers() == nil || depth > 3 {
+			return
+		}
+		for _, u := range *v.Referrers() {
+			switch u := u.(type) {
+			case *ssa.If:
+				idx := 1
+				if want {
+					idx = 0
+				}
+				out[sx.Edge{From: u.Block(), Idx: idx}] = true
+			case *ssa.UnOp:
+				if u.Op == token.NOT {
+					walk(u, !want, depth+1)
+				}
+			}
+		}
+	}
+	walk(v, want, 0)
+	return out
+}
